@@ -26,7 +26,7 @@ pub static DEF: PropertyDef = PropertyDef {
     exhaustive_note: "four binding configurations for every sampled history",
     generate,
     execute,
-    must_hit: &["fault.external.committed_call", "fault.external.value_checked", "fault.external.string_position_safe", "fault.external.string_position_refused", "fault.external.unbound_rejected", "fault.external.unbound_mid_history", "fault.external.unbound_mid_history_call_rejected", "probe.unsafe_external_deferred", "fault.external.speculative_safe_call", "fault.external.unsafe_after_preceding_line"],
+    must_hit: &["fault.external.committed_call", "fault.external.value_checked", "fault.external.string_position_safe", "fault.external.string_position_refused", "fault.external.unbound_rejected", "fault.external.unbound_mid_history", "fault.external.second_bind_rejected", "fault.external.unbound_mid_history_call_rejected", "probe.unsafe_external_deferred", "fault.external.speculative_safe_call", "fault.external.unsafe_after_preceding_line"],
     timeout_s: 30,
     hang_class: None,
     sub_builds: &[],
@@ -247,6 +247,12 @@ fn execute(case: &Case) -> CaseResult {
         let mut transcript: Vec<String> = Vec::new();
         let mut refused_at: Option<usize> = None;
         for (i, op) in case.ops.iter().enumerate() {
+            if i == 1 && *mode == "bound not-safe" {
+                // the host tries to bind a bound name again, as look-ahead-safe: refused, and the binding stays as it was
+                if matches!(h.apply(&Op::Invalid(InvalidKind::BindTwice)), Res::Err(..)) {
+                    res.stats.inc("fault.external.second_bind_rejected");
+                }
+            }
             if matches!(op, Op::Choose(_)) {
                 transcript.push(format!("choices {:?}", h.choices()));
             }
